@@ -31,6 +31,44 @@ static void op_decoy(Exec& x, const Json& op, int)
 	x.probe("c19.decoys_planted");
 }
 
+// a synced file A goes away and a new file B of the same size takes over its positions; the old bytes are remembered
+static void op_c19_replace_pending(Exec& x, const Json& op, int)
+{
+	std::string src = x.disk_top(op.num("d")) + "/" + op.str("sub");
+	Bytes a;
+	if (!x.sb.get_file(src, a) || a.empty()) return;
+	x.sb.remove_path(src);
+	Bytes b = gen_bytes((uint64_t)op.num("seed"), a.size());
+	if (b == a) b[0] = (char)(b[0] ^ 1);
+	int64_t s, ns;
+	x.sb.next_stamp(s, ns);
+	std::string rel = x.disk_top(op.num("d")) + "/" + op.str("name");
+	x.sb.put_file(rel, b, s, ns, true);
+	x.vars["c19_old_bytes"] = Json(a);
+	x.vars["c19_pending_rel"] = Json(rel);
+	x.probe("c19.pending_file_over_old_positions");
+}
+
+// the old bytes of A turn up with the name, size and stamp of the (still pending) file B: in the import directory and on another disk
+static void op_c19_old_sources(Exec& x, const Json& op, int)
+{
+	if (!x.vars.count("c19_pending_rel")) return;
+	std::string rel = x.vars["c19_pending_rel"].s;
+	Bytes a = x.vars["c19_old_bytes"].s;
+	uint64_t sz; int64_t s, ns;
+	if (!x.sb.stat_file(rel, sz, s, ns) || sz != a.size()) return;
+	std::string base = rel.substr(rel.rfind('/') + 1);
+	Json lst = x.vars.count("decoys") ? x.vars["decoys"] : Json::arr();
+	if (op.num("imp")) x.sb.put_file("imp/" + base, a, s, ns, true);
+	if (op.num("other_disk")) {
+		std::string top2 = x.disk_top(op.num("d2"));
+		std::string r2 = top2 + "/old copy/" + base;
+		if (top2 != rel.substr(0, rel.find('/')) && !x.sb.exists(r2)) { x.sb.put_file(r2, a, s, ns, true); lst.push(r2); }
+	}
+	x.vars["decoys"] = lst;
+	x.probe("c19.old_data_offered_for_pending_file");
+}
+
 static void op_c19_sync(Exec& x, const Json& op, int)
 {
 	CmdSpec spec = CmdSpec::from_json(op.at("spec"));
@@ -137,7 +175,27 @@ static RunPlan gen_decoy(uint64_t seed, int tier)
 		p.ops.push_back(op_cmd(gen_sched(rng, ps)));
 		srcs.push_back({ d, "late/source" });
 	}
-	int scenario = (int)rng.below(3);
+	int scenario = (int)rng.below(4);
+	if (scenario == 3) {
+		// a file that is still pending (its blocks carry the hashes of the previous occupant of the positions) is lost while
+		// the previous occupant's bytes are on offer under the lost file's name, size and stamp
+		auto& s = srcs[rng.below(srcs.size())];
+		std::string name = "pend/" + s.second.substr(s.second.rfind('/') + 1);
+		p.ops.push_back(Json::obj().set("k", "c19_replace_pending").set("d", s.first).set("sub", s.second).set("name", name).set("seed", rng.next() >> 1));
+		CmdSpec ps;
+		ps.cmd = "sync";
+		ps.opts = { "-E", "-Z" };
+		if (rng.chance(1, 2)) { ps.sig_at_io = 1; ps.sig_no = 2; } else { ps.opts.push_back("-S"); ps.opts.push_back("1000000"); }
+		p.ops.push_back(op_cmd(gen_sched(rng, ps)));
+		int how = (int)rng.below(3);
+		p.ops.push_back(Json::obj().set("k", "c19_old_sources").set("imp", how != 1 ? 1 : 0).set("other_disk", how != 0 ? 1 : 0).set("d2", (int64_t)rng.below(nd)));
+		p.ops.push_back(Json::obj().set("k", "delete").set("d", s.first).set("sub", name));
+		CmdSpec f;
+		f.cmd = rng.chance(1, 6) ? "check" : "fix";
+		if (how != 1) { f.opts.push_back(rng.chance(1, 2) ? "-i" : "--test-import-content"); f.opts.push_back("@IMP@"); }
+		p.ops.push_back(Json::obj().set("k", "c05_fix").set("as", "C19").set("spec", gen_sched(rng, f).to_json()));
+		return p;
+	}
 	if (scenario <= 1) {
 		// decoys (and honest copies) appear, then sync variants
 		int nde = (int)rng.range(1, 3);
@@ -214,6 +272,8 @@ static struct RegDecoy {
 	{
 		Exec::register_op("decoy", op_decoy);
 		Exec::register_op("c19_sync", op_c19_sync);
+		Exec::register_op("c19_replace_pending", op_c19_replace_pending);
+		Exec::register_op("c19_old_sources", op_c19_old_sources);
 		Exec::register_op("import_decoys", op_import_decoys);
 		Exec::register_op("lose_parity", op_lose_parity);
 		Family f;
